@@ -155,6 +155,9 @@ def nodes : Expr → List Expr → List Expr
       let a2 := nodes e acc
       if a2.contains (.prod v e) then a2 else a2 ++ [.prod v e]
   | .cat v parts, acc => if acc.contains (.cat v parts) then acc else acc ++ [.cat v parts]
+  | .scat i k t e, acc =>
+      let a2 := nodes e acc
+      if a2.contains (.scat i k t e) then a2 else a2 ++ [.scat i k t e]
 
 /-- leaf `id` has key `id`; the i-th recorded node has key `nodeBase + i` -/
 def nodeBase : Nat := 100000
@@ -185,7 +188,8 @@ def entryOf (tbl : List Expr) (e : Expr) : Entry (NT R) :=
    | .prod v e' =>
        [(keyOf tbl e', fun a => agg o sz n F (fvMask L e')
           (divNT o (mulNT o a (valNT o sz L (.prod v e'))) (valNT o sz L e')))]
-   | .cat v parts => catChildren o sz L n F v (fvMask L (.cat v parts)) parts 0⟩
+   | .cat v parts => catChildren o sz L n F v (fvMask L (.cat v parts)) parts 0
+   | .scat i k t e' => [(keyOf tbl e', fun a => agg o sz n F (fvMask L e') (scatMsg i k t a))]⟩
 
 /-- the tape of `e`, newest entry first -/
 def tapeOf (e : Expr) : List (Entry (NT R)) :=
